@@ -75,7 +75,7 @@ def main(ctx):
               "decorated_handler_invoked", "user_error_reported", "protocol_error_raised",
               "shape:none", "shape:args", "shape:kwargs", "shape:both",
               "unsub_in_subscribe_callback", "callee_variant_transitions", "handler_kinds_events",
-              "pattern_subscription_events", "encoded_event_cases", "callable_kinds"):
+              "pattern_subscription_events", "encoded_event_cases", "callable_kinds", "details_name_in_kwargs"):
         ctx.require(n)
 
 
@@ -818,6 +818,28 @@ def _job_kinds(a):
         if exc is not None or seen_topics != want:
             bad("event-details-topic", "subscription %r (match=%s), EVENT with Details.topic=%r: handler saw "
                 "details.topic %r, expected %r (raised %r)" % (pattern, match, published, seen_topics, want, exc))
+    # ---- an event whose published keyword arguments contain the very name under which the handler
+    # asked for the event details: the handler still gets the EventDetails it requested under that
+    # name (and every other published keyword argument unchanged)
+    for dname, opts in (("details", T.SubscribeOptions(details=True)), ("info", T.SubscribeOptions(details_arg="info"))):
+        l1 = H.L1(observers=False).join()
+        s = l1.session
+        got_d = []
+
+        def h(*a_, **k_):
+            got_d.append((tuple(a_), {k: (type(v).__name__ if k == dname else v) for k, v in k_.items()}))
+        l1.api(s.subscribe, h, "com.shadow.t", options=opts)
+        l1.settle()
+        req = [m for m in l1.transport.sent if isinstance(m, M.Subscribe)][-1].request
+        l1.deliver(M.Subscribed(req, 92))
+        exc = l1.deliver(M.Event(92, 904, args=[1], kwargs={dname: "published-text", "k": 2}))
+        l1.settle()
+        evals += 1
+        stats["details_name_in_kwargs"] += 1
+        want = [((1,), {dname: "EventDetails", "k": 2})]
+        if exc is not None or got_d != want:
+            bad("requested-details-shadowed", "handler asked for details under %r, EVENT kwargs contain %r: handler got %r "
+                "expected %r (raised %r)" % (dname, dname, got_d, want, exc))
     # ---- handlers that are callables other than functions / methods: functools.partial objects,
     # instances with __call__, bound methods of builtins - subscribe(handler, topic) treats every
     # callable as ONE handler: one SUBSCRIBE, and the EVENT reaches it
